@@ -624,6 +624,38 @@ def extract(bdir):
     need("call_out.pop", len(it) == 1 and len(ip) == 1 and len(ic) == 1 and it[0] < ip[0] < ic[0] and len(dk) == 3,
          "the do/while body is no longer `cop = call_list[tm]; call_list[tm] = call_list[tm]->next; if (destructed) drop else call`")
 
+    # ---- loops over the wheel: every slot, from 0, one at a time -------------------------------------------------
+    for f, var in (("remove_call_out", "i"), ("find_call_out", "i"), ("remove_all_call_out", "i"), ("print_call_out_usage", "j"),
+                   ("get_all_call_outs", "j")):
+        fn = ast_function(bdir, SRC, f)
+        loops = [n for n in walk(body_of(fn)) if n.get("kind") == "ForStmt" and len(kids(n)) >= 3
+                 and any(ref_name(x) == var for x in walk(kids(n)[-3])) and kids(n)[-3].get("kind") == "BinaryOperator"
+                 and kids(n)[-3].get("opcode") in ("<", "<=", "!=", ">", ">=")]
+        need(f + ".slots", len(loops) >= 1, "the loop over the wheel slots not found")
+        for lp in loops:
+            cond, inc = kids(lp)[-3], kids(lp)[-2]
+            e, pp = tr(f + ".slots", (var,), fn)
+            # from 0 in steps of one, `<` and `!=` visit the same slots
+            need(f + ".slots", pp(cond) in ("%s < (calloutCycleSize : Int)" % var, "%s ≠ (calloutCycleSize : Int)" % var),
+                 "a loop over the slots no longer runs while `%s < CALLOUT_CYCLE_SIZE`: %s" % (var, src_of(cond, text)))
+            need(f + ".slots", inc.get("kind") == "UnaryOperator" and inc.get("opcode") == "++" and ref_name(inc["inner"][0]) == var,
+                 "a loop over the slots no longer advances by `%s++`" % var)
+            init = [x for x in walk(lp["inner"][0]) if isinstance(x, dict) and is_assign_to(x, var)] if isinstance(lp["inner"][0], dict) else []
+            need(f + ".slots", len(init) == 1 and strip(init[0]["inner"][1]).get("kind") == "IntegerLiteral"
+                 and strip(init[0]["inner"][1]).get("value") == "0", "a loop over the slots no longer starts at 0")
+
+    # ---- free list refill: only when empty, one chunk ---------------------------------------------------------------
+    fn = ast_function(bdir, SRC, "new_call_out")
+    refills = [n for n in walk(body_of(fn)) if n.get("kind") == "IfStmt"
+               and any(c.get("kind") == "CompoundAssignOperator" and ref_name(c["inner"][0]) == "num_call" for c in walk(n))]
+    need("new_call_out.refill", len(refills) == 1, "the refill `if (!call_list_free) { ...; num_call += CHUNK_SIZE; }` not found")
+    rc = strip(kids(refills[0])[0])
+    need("new_call_out.refill", rc.get("kind") == "UnaryOperator" and rc.get("opcode") == "!" and ref_name(rc["inner"][0]) == "call_list_free",
+         "the free list is no longer refilled exactly when it is empty: `%s`" % src_of(rc, text))
+    adds = [c for c in walk(refills[0]) if c.get("kind") == "CompoundAssignOperator" and ref_name(c["inner"][0]) == "num_call"]
+    need("new_call_out.refill", len(adds) == 1 and adds[0].get("opcode") == "+=" and macro_tok(strip(adds[0]["inner"][1])) == "CHUNK_SIZE",
+         "num_call no longer grows by CHUNK_SIZE per refill")
+
     # ---- allocation chunk -----------------------------------------------------------------------------------
     m = re.search(r"^#define\s+CHUNK_SIZE\s+(\d+)\s*$", text, re.M)
     need("CHUNK_SIZE", m is not None, "#define CHUNK_SIZE not found")
